@@ -531,3 +531,210 @@ def fuzz(tier, seed):
     r = common.result(cases, cases, fails, "%d formats: all truncation points of short files / 60 evenly spaced cuts, seeded byte corruptions, blown-up 32-bit fields; by file object and by path" % len(_samples()), exhaustive=False)
     r["failures"] = fails
     return r
+
+
+# ----------------------------------------------------------------------------- (e) structured corruption, each case in a separate interpreter
+
+
+def _glb_parts(data):
+    import json
+    import struct
+
+    assert data[:4] == b"glTF"
+    n0 = struct.unpack("<I", data[12:16])[0]
+    header = json.loads(data[20 : 20 + n0].decode("utf-8"))
+    rest = data[20 + n0 :]
+    n1 = struct.unpack("<I", rest[:4])[0]
+    return header, rest[8 : 8 + n1]
+
+
+def _glb_build(header, blob):
+    import json
+    import struct
+
+    js = json.dumps(header, separators=(",", ":")).encode("utf-8")
+    js += b" " * ((4 - len(js) % 4) % 4)
+    blob = blob + b"\x00" * ((4 - len(blob) % 4) % 4)
+    total = 12 + 8 + len(js) + 8 + len(blob)
+    return b"glTF" + struct.pack("<II", 2, total) + struct.pack("<I", len(js)) + b"JSON" + js + struct.pack("<I", len(blob)) + b"BIN\x00" + blob
+
+
+def _structured_cases():
+    """(name, file type, bytes, must_not_return): must_not_return marks cases whose declared
+    layout needs more bytes than the file has - a loader that returns geometry for them has
+    read something that is not in the file"""
+    import copy
+    import zipfile
+
+    import trimesh
+
+    out = []
+    m = trimesh.creation.box()
+    header, blob = _glb_parts(trimesh.Scene(m).export(file_type="glb"))
+    # interleaved-style view: POSITION accessor through a bufferView with a byteStride
+    pos = header["meshes"][0]["primitives"][0]["attributes"]["POSITION"]
+    acc = header["accessors"][pos]
+    view_i = acc["bufferView"]
+    base = copy.deepcopy(header)
+    base["bufferViews"][view_i]["byteStride"] = 12
+    out.append(("glb:stride-valid", "glb", _glb_build(base, blob), False))
+    count = acc["count"]
+
+    def variant(name, edit, overrun):
+        h2 = copy.deepcopy(base)
+        edit(h2)
+        out.append(("glb:" + name, "glb", _glb_build(h2, blob), overrun))
+
+    A = lambda h2: h2["accessors"][pos]  # noqa: E731
+    V = lambda h2: h2["bufferViews"][view_i]  # noqa: E731
+    variant("position-count+1", lambda h2: A(h2).update(count=count + 1), True)
+    variant("position-count-x2", lambda h2: A(h2).update(count=count * 2), True)
+    variant("position-count-2^31", lambda h2: A(h2).update(count=2**31), True)
+    variant("position-count-0", lambda h2: A(h2).update(count=0), False)
+    variant("position-count-negative", lambda h2: A(h2).update(count=-3), False)
+    variant("accessor-byteOffset-4", lambda h2: A(h2).update(byteOffset=4), True)
+    variant("accessor-byteOffset-2^31", lambda h2: A(h2).update(byteOffset=2**31), True)
+    variant("accessor-byteOffset-negative", lambda h2: A(h2).update(byteOffset=-12), False)
+    for st in (0, 4, 13, 24, 2**31, 2**40, -12):
+        variant("byteStride=%d" % st, lambda h2, st=st: V(h2).update(byteStride=st), st > 12)
+    variant("view-byteLength-short", lambda h2: V(h2).update(byteLength=V(h2)["byteLength"] - 12), True)
+    variant("view-byteLength-0", lambda h2: V(h2).update(byteLength=0), True)
+    variant("view-byteLength-huge", lambda h2: V(h2).update(byteLength=2**31), True)
+    variant("view-byteOffset-2^31", lambda h2: V(h2).update(byteOffset=2**31), True)
+    variant("view-buffer-5", lambda h2: V(h2).update(buffer=5), False)
+    variant("accessor-bufferView-99", lambda h2: A(h2).update(bufferView=99), False)
+    variant("accessor-componentType-9999", lambda h2: A(h2).update(componentType=9999), False)
+    variant("accessor-type-VEC9", lambda h2: A(h2).update(type="VEC9"), False)
+    idx = header["meshes"][0]["primitives"][0].get("indices")
+    if idx is not None:
+        variant("indices-count-2^31", lambda h2: h2["accessors"][idx].update(count=2**31), True)
+        variant("indices-count+3", lambda h2: h2["accessors"][idx].update(count=h2["accessors"][idx]["count"] + 3), True)
+    variant("node-is-its-own-child", lambda h2: h2["nodes"][-1].update(children=[len(h2["nodes"]) - 1]), False)
+    variant("node-children-cycle", lambda h2: (h2["nodes"][0].update(children=[len(h2["nodes"]) - 1]), h2["nodes"][-1].update(children=[0])), False)
+    variant("node-mesh-99", lambda h2: h2["nodes"][-1].update(mesh=99), False)
+    variant("scene-nodes-99", lambda h2: h2["scenes"][0].update(nodes=[99]), False)
+
+    # 3MF: component cycles and chains
+    def threemf(objects, build):
+        body = ['<?xml version="1.0" encoding="UTF-8"?>', '<model unit="millimeter" xmlns="http://schemas.microsoft.com/3dmanufacturing/core/2015/02">', "<resources>"]
+        body += objects
+        body += ["</resources>", "<build>"] + ['<item objectid="%s" />' % b for b in build] + ["</build>", "</model>"]
+        f = io.BytesIO()
+        with zipfile.ZipFile(f, "w") as z:
+            z.writestr("3D/3dmodel.model", "\n".join(body))
+            z.writestr("[Content_Types].xml", '<?xml version="1.0" encoding="UTF-8"?><Types xmlns="http://schemas.openxmlformats.org/package/2006/content-types"><Default Extension="model" ContentType="application/vnd.ms-package.3dmanufacturing-3dmodel+xml" /></Types>')
+        return f.getvalue()
+
+    mesh_obj = '<object id="1" type="model"><mesh><vertices><vertex x="0" y="0" z="0" /><vertex x="1" y="0" z="0" /><vertex x="0" y="1" z="0" /></vertices><triangles><triangle v1="0" v2="1" v3="2" /></triangles></mesh></object>'
+
+    def comp(oid, children):
+        return '<object id="%s" type="model"><components>%s</components></object>' % (oid, "".join('<component objectid="%s" />' % c for c in children))
+
+    out.append(("3mf:valid-components", "3mf", threemf([mesh_obj, comp(2, [1, 1])], [2]), False))
+    out.append(("3mf:component-lists-itself", "3mf", threemf([mesh_obj, comp(2, [1, 2])], [2]), False))
+    out.append(("3mf:component-only-itself", "3mf", threemf([mesh_obj, comp(2, [2])], [2]), False))
+    out.append(("3mf:two-cycle", "3mf", threemf([mesh_obj, comp(2, [1, 3]), comp(3, [2])], [2]), False))
+    out.append(("3mf:cycle-with-branches", "3mf", threemf([mesh_obj, comp(2, [1, 1, 3]), comp(3, [1, 2, 2])], [2, 3]), False))
+    out.append(("3mf:undefined-object", "3mf", threemf([mesh_obj, comp(2, [1, 77])], [2, 55]), False))
+    depth = 400
+    out.append(("3mf:chain-of-%d" % depth, "3mf", threemf([mesh_obj] + [comp(k, [k - 1]) for k in range(2, depth)], [depth - 1]), False))
+    out.append(("3mf:diamond-10-levels (2^10 instances)", "3mf", threemf([mesh_obj] + [comp(k, [k - 1, k - 1]) for k in range(2, 12)], [11]), False))
+
+    # header counts far beyond the data
+    big = [2**31, 2**40]
+    for n in big:
+        out.append(("ply-binary:vertex-count-%d" % n, "ply", ("ply\nformat binary_little_endian 1.0\nelement vertex %d\nproperty float x\nproperty float y\nproperty float z\nelement face 0\nproperty list uchar int vertex_indices\nend_header\n" % n).encode() + b"\x00" * 24, True))
+        out.append(("ply-ascii:vertex-count-%d" % n, "ply", ("ply\nformat ascii 1.0\nelement vertex %d\nproperty float x\nproperty float y\nproperty float z\nelement face 0\nproperty list uchar int vertex_indices\nend_header\n0 0 0\n1 0 0\n" % n).encode(), True))
+        out.append(("ply-binary:face-count-%d" % n, "ply", ("ply\nformat binary_little_endian 1.0\nelement vertex 1\nproperty float x\nproperty float y\nproperty float z\nelement face %d\nproperty list uchar int vertex_indices\nend_header\n" % n).encode() + b"\x00" * 12 + b"\x03" + b"\x00" * 12, True))
+        out.append(("off:vertex-count-%d" % n, "off", ("OFF\n%d 1 0\n0 0 0\n1 0 0\n0 1 0\n3 0 1 2\n" % n).encode(), True))
+        out.append(("off:face-count-%d" % n, "off", ("OFF\n3 %d 0\n0 0 0\n1 0 0\n0 1 0\n3 0 1 2\n" % n).encode(), True))
+    out.append(("ply-binary:negative-vertex-count", "ply", b"ply\nformat binary_little_endian 1.0\nelement vertex -5\nproperty float x\nproperty float y\nproperty float z\nend_header\n", False))
+    out.append(("ply-binary:list-count-255", "ply", b"ply\nformat binary_little_endian 1.0\nelement vertex 1\nproperty float x\nproperty float y\nproperty float z\nelement face 1\nproperty list uchar int vertex_indices\nend_header\n" + b"\x00" * 12 + b"\xff" + b"\x00" * 12, True))
+    for dims in ("100000 100000 100000", "2147483648 1 1", "-4 4 4", "0 0 0"):
+        out.append(("binvox:dim %s" % dims, "binvox", ("#binvox 1\ndim %s\ntranslate 0 0 0\nscale 1\ndata\n" % dims).encode() + b"\x01\x08", dims.startswith(("1", "2"))))
+    out.append(("stl-ascii:unterminated", "stl", b"solid a\nfacet normal 0 0 1\nouter loop\nvertex 0 0 0\nvertex 1 0 0\n", False))
+    out.append(("obj:face-index-2^40", "obj", b"v 0 0 0\nv 1 0 0\nv 0 1 0\nf 1 2 1099511627776\n", False))
+    out.append(("obj:face-index-0-and-negative", "obj", b"v 0 0 0\nv 1 0 0\nv 0 1 0\nf 0 -1 -7\n", False))
+    return out
+
+
+@bounded("C20", name="real-code:structured-corruption", note="glTF accessors / bufferViews / strides / node cycles, 3MF component cycles and chains, header counts far beyond the data (PLY, OFF, binvox), OBJ indices: every case loaded in a SEPARATE interpreter (10 s, 4 GiB): returns or raises an ordinary exception, does not crash the interpreter, does not return geometry for a layout that needs more bytes than the file has")
+def structured(tier, seed):
+    import shutil
+    import subprocess
+    import tempfile
+
+    verif = os.path.dirname(os.path.dirname(os.path.abspath(__file__)))
+    tmpdir = tempfile.mkdtemp(prefix="pyvc_c20s_", dir=os.path.join(verif, "scratch"))
+    cells = {}
+
+    def fail(key, detail=""):
+        c = cells.setdefault(key, {"what": key, "cell": key, "detail": str(detail)[:200], "count": 0})
+        c["count"] += 1
+
+    try:
+        cases = _structured_cases()
+        todo = []
+        for k, (name, ft, data, overrun) in enumerate(cases):
+            fp = os.path.join(tmpdir, "case%03d.bin" % k)
+            with open(fp, "wb") as fh:
+                fh.write(data)
+            todo.append((name, ft, fp, overrun))
+        expect = {n: o for n, _, _, o in todo}
+        sizes = {name: (len(data), len(data.split())) for name, _ft, data, _o in cases}
+        env = dict(os.environ)
+        repo = os.environ.get("VERIF_REPO") or "/repo"
+        env["PYTHONPATH"] = repo + os.pathsep + env.get("PYTHONPATH", "")
+        pending = list(todo)
+        outcomes = {}
+        restarts = 0
+        while pending and restarts < 40:
+            p = subprocess.run([sys.executable, os.path.join(verif, "tools", "c20_driver.py")], input="".join("%s\t%s\t%s\n" % (n, ft, fp) for n, ft, fp, _ in pending), capture_output=True, text=True, env=env, timeout=30 * len(pending) + 120, cwd=tmpdir)
+            started = None
+            for line in p.stdout.splitlines():
+                if line.startswith("START "):
+                    started = line[6:]
+                elif line.startswith("END "):
+                    n, _, oc = line[4:].partition("\t")
+                    outcomes[n] = oc
+                    started = None
+            if started is not None and started not in outcomes:
+                outcomes[started] = "INTERPRETER DIED (exit code %s)" % p.returncode
+            done = set(outcomes)
+            remaining = [c for c in pending if c[0] not in done]
+            if len(remaining) == len(pending):
+                # the driver did not even start a case: report and stop
+                fail("driver-did-not-run", (p.stderr or "")[-200:])
+                break
+            pending = remaining
+            restarts += 1
+        for name, oc in sorted(outcomes.items()):
+            fam = name.split(":")[0]
+            if oc.startswith("INTERPRETER DIED"):
+                fail("%s:interpreter-crashed" % name, oc)
+            elif oc == "TIMEOUT":
+                fail("%s:does-not-finish-within-10s" % name, oc)
+            elif oc.startswith("NON-ORDINARY"):
+                fail("%s:%s" % (name, oc), oc)
+            elif oc == "raised MemoryError":
+                fail("%s:memory-out-of-proportion (MemoryError under a 4 GiB limit)" % name, oc)
+            elif oc.startswith("returned") and expect.get(name) and name.startswith("glb:"):
+                # (constructed so that the declared layout needs more bytes than the view has)
+                fail("%s:returns-geometry-that-is-not-in-the-file" % name, oc)
+            elif oc.startswith("returned") and " vertices" in oc:
+                # lenient parsers may return what IS there; more coordinates than the file can
+                # hold (4 bytes per binary float, one token per text number) cannot be in it
+                nv = int(oc.split(" vertices")[0].split()[-1])
+                size = sizes.get(name, (0, 0))
+                if nv * 3 > max(size[0] // 4, size[1]):
+                    fail("%s:returns-more-coordinates-than-the-file-holds" % name, oc)
+            elif name.endswith("valid") or name.endswith("valid-components"):
+                if not oc.startswith("returned"):
+                    fail("%s:valid-control-case-rejected (%s)" % (fam, name), oc)
+        n = len(cases)
+    finally:
+        shutil.rmtree(tmpdir, ignore_errors=True)
+    fails = sorted(cells.values(), key=lambda c: c["cell"])
+    r = common.result(n, n, fails, "%d structured corruptions, one interpreter per crash" % n, exhaustive=True)
+    r["failures"] = fails
+    return r
